@@ -1,5 +1,5 @@
 """C25 — Syncer never re-requests history behind a pruned window edge."""
-from engine.rules import AnyOf, Direct, Has, call_expr, require_guard
+from engine.rules import AnyOf, BoolIs, Direct, Has, call_expr, require_guard
 from engine.mir import has_all, has_leaf
 from rules.C24 import find_sites, request_sites
 
@@ -34,6 +34,6 @@ def run(ctx):
             if pruner_side:
                 ctx.ok("C25.window-edge", body.path, "pruner never prunes synced-range edges after the sampling window", site=body.loc(b, i))
                 continue
-            spec = AnyOf(Direct(["*in_sampling_window"]), Direct(["*BlockRanges::contains"], ["call:lumina_node::store::Store::get_pruned_ranges"]),
+            spec = AnyOf(BoolIs(["*in_sampling_window"], True), BoolIs(["*BlockRanges::contains"], False, args=["call:lumina_node::store::Store::get_pruned_ranges"]),
                          name="window decision (in_sampling_window of the header above the batch, or pruned-range membership of that height) on every path to the request")
             require_guard(ctx, body, spec, "C25.window-edge", targets=[b])
